@@ -280,7 +280,11 @@ fn script_with(hs_seq: u8) -> (Vec<u8>, Conv, Vec<u8>) {
     let hs = frame(hs_seq, &handshake41(caps, 1 << 24, 0x21, b"tls-user", &[0])).0;
     let mut big = b"big ".to_vec();
     big.extend((0..20_000).map(|i| b'a' + (i % 26) as u8));
-    let cmds = vec![q(b"SELECT 1"), ClientCmd::new(with_byte(COM_STMT_PREPARE, b"id=1 p=0")), ClientCmd::new(cmd_execute(1, 0, 1, &[])), q(&big), ping(), quit()];
+    let mut cmds = vec![q(b"SELECT 1"), ClientCmd::new(with_byte(COM_STMT_PREPARE, b"id=1 p=0")), ClientCmd::new(cmd_execute(1, 0, 1, &[])), q(&big), ping(), quit()];
+    if let Some(c) = SCRIPT_CMDS.with(|c| c.borrow().clone()) {
+        cmds = c;
+        cmds.push(quit());
+    }
     let mut conv = Conv::new(cmds);
     conv.handshake = hs;
     conv.hs_seq = hs_seq;
@@ -754,6 +758,8 @@ thread_local! {
     static HELLO_VERSION: std::cell::Cell<Option<[u8; 2]>> = std::cell::Cell::new(None);
     /// the handshake response sent inside TLS does not repeat the CLIENT_SSL bit
     static POST_TLS_WITHOUT_SSL_BIT: std::cell::Cell<bool> = std::cell::Cell::new(false);
+    /// commands to send inside TLS instead of the fixed script (TlsWalks)
+    static SCRIPT_CMDS: RefCell<Option<Vec<ClientCmd>>> = RefCell::new(None);
 }
 
 /// the client's stream ends (no close_notify) after k bytes of a TLS session: inside the TLS
@@ -937,6 +943,73 @@ impl Family for ClientQuirks {
     }
 }
 
+/// the command-kind walks of C01 (PREPARE, long data, EXECUTE, CLOSE, queries, PING in every order)
+/// inside a TLS session, under whole reads and two small uniform read sizes: what the shim sees and
+/// what the client decrypts must be what a plaintext connection would give
+struct TlsWalks {
+    depth: usize,
+}
+const WALK_READS: [usize; 3] = [usize::MAX, 7, 61];
+impl Family for TlsWalks {
+    fn name(&self) -> String {
+        format!("command-kind-walks-inside-tls-depth-{}", self.depth)
+    }
+    fn len(&self) -> u64 {
+        super::c01::KIND_WALK_ALPHABET.pow(self.depth as u32) * WALK_READS.len() as u64
+    }
+    fn run(&self, idx: u64, st: &mut Stats) -> Result<(), Violation> {
+        let uniform = WALK_READS[(idx % 3) as usize];
+        let (names, cmds, mut expected) = match super::c01::kind_walk(self.depth, idx / 3) {
+            Some(x) => x,
+            None => {
+                st.skipped += 1;
+                return Ok(());
+            }
+        };
+        st.nontrivial += 1;
+        st.bump("tls_walks");
+        let n = cmds.len();
+        SCRIPT_CMDS.with(|c| *c.borrow_mut() = Some(cmds));
+        let o = run_tls_full(Some(pki().server_plain.clone()), false, vec![], uniform, 0, false, None, 2);
+        let (_, conv, last_seq) = script_with(2);
+        SCRIPT_CMDS.with(|c| *c.borrow_mut() = None);
+        let what = format!("{:?} inside TLS, reads of at most {} bytes", names, if uniform == usize::MAX { 0 } else { uniform });
+        if let ConnResult::Panic(l, m) = &o.res {
+            return Err(Violation::new(panic_key(l, m), format!("{}: run_on panicked at {}: {}", what, l, m)));
+        }
+        if o.st.hang {
+            return Err(Violation::new("hang", format!("{}: the server waited for bytes although the client had sent everything", what)));
+        }
+        if let Some(e) = &o.st.tls_error {
+            return Err(Violation::new("tls-error", format!("{}: {}", what, e)));
+        }
+        let g = o.st.greeting_len.unwrap_or(0);
+        only_tls_records(&o.st.from_server[g..]).map_err(|e| Violation::new("plaintext-after-switch", format!("{}: {}", what, e)))?;
+        if !o.res.is_ok() {
+            return Err(Violation::new("result-not-ok", format!("{}: run_on returned {}", what, o.res.short())));
+        }
+        expected[0] = Cb::Auth { user: Some(b"tls-user".to_vec()), certs: None };
+        let got: Vec<Cb> = o
+            .log
+            .iter()
+            .map(|c| match c {
+                Cb::Auth { user, certs } => Cb::Auth { user: user.clone(), certs: certs.clone().filter(|c| !c.is_empty()) },
+                other => other.clone(),
+            })
+            .collect();
+        if got != expected {
+            return Err(Violation::new("commands-differ", format!("{}: callback log {:?}, expected {:?}", what, got.iter().map(cb_short).collect::<Vec<_>>(), expected.iter().map(cb_short).collect::<Vec<_>>())));
+        }
+        let mut all = o.st.from_server[..g].to_vec();
+        all.extend_from_slice(&o.st.decrypted);
+        decode_all(&all, &conv, &last_seq, n, false).map_err(|e| Violation::new("decrypted-replies", format!("{}: {}", what, e)))?;
+        Ok(())
+    }
+    fn describe(&self, idx: u64) -> J {
+        json!({"walk": super::c01::kind_walk(self.depth, idx / 3).map(|x| x.0), "uniform_read": WALK_READS[(idx % 3) as usize]})
+    }
+}
+
 pub fn build(quick: bool) -> Check {
     let mut families: Vec<Box<dyn Family>> = Vec::new();
     for cc in [false, true] {
@@ -962,10 +1035,12 @@ pub fn build(quick: bool) -> Check {
         families.push(Box::new(Tls12Splits { positions: split_positions(&stream, quick), client_cert: cc }));
     }
     families.push(Box::new(NoConfig { base: baseline(false) }));
+    families.push(Box::new(TlsWalks { depth: 3 }));
+    families.push(Box::new(TlsWalks { depth: if quick { 4 } else { 5 } }));
     Check {
         id: "C18",
         level: "model_checking",
-        rule: "a live rustls client inside the transport: SSLRequest (plaintext) immediately followed by the ClientHello, then, once the server's flight arrived, Finished (+ client certificate) coalesced with the encrypted HandshakeResponse41 and six pipelined commands, among them a 20000-byte query (several inbound TLS records) answered by a resultset with a 40000-byte cell and 250 rows (115 KB: several outbound records, more than rustls buffers unsent). Schedules: every single cut position of the whole client->server stream (quick: every position of the first 1600 bytes and within 6 bytes of each TLS record header, every 13th elsewhere), every pair of cut positions within SSLRequest+ClientHello (thorough: every pair within the first 1100 bytes), uniform read sizes 1..64; with and without a client certificate; the single cuts again with a TLS 1.2 client; ClientHello sizes (padded with ALPN names) swept across 3.6-4.2 KB, 7.8-8.3 KB, 15.9-16.5 KB and up to 60 KB, coalesced with the SSL request or not; SSL requests in the pre-4.1 layout (naming another user in the clear) and connection-phase sequence ids other than 1, 2; ClientHello records with legacy versions 0x0300..0x0303 and a handshake response inside TLS that does not repeat CLIENT_SSL; the client's stream ending (without close_notify) at every such position of a TLS 1.3 and a TLS 1.2 session - with all messages in one burst of records and with one record per message; Ok is only acceptable exactly between two TLS records; each transport write of a TLS session failing once with Interrupted / WouldBlock, with an accepting and a rejecting shim; plus a TLS-requesting client against a shim without TLS configuration under every cut of its first flight. Oracle: user name and certificate chain at after_authentication, callback log = script, every server byte after the greeting lies in a well-formed TLS record the client accepts, decrypted replies decode strictly with the right sequence ids, run_on returns Ok; no-config case: Err and no callback.".into(),
+        rule: "a live rustls client inside the transport: SSLRequest (plaintext) immediately followed by the ClientHello, then, once the server's flight arrived, Finished (+ client certificate) coalesced with the encrypted HandshakeResponse41 and six pipelined commands, among them a 20000-byte query (several inbound TLS records) answered by a resultset with a 40000-byte cell and 250 rows (115 KB: several outbound records, more than rustls buffers unsent). Schedules: every single cut position of the whole client->server stream (quick: every position of the first 1600 bytes and within 6 bytes of each TLS record header, every 13th elsewhere), every pair of cut positions within SSLRequest+ClientHello (thorough: every pair within the first 1100 bytes), uniform read sizes 1..64; with and without a client certificate; the single cuts again with a TLS 1.2 client; ClientHello sizes (padded with ALPN names) swept across 3.6-4.2 KB, 7.8-8.3 KB, 15.9-16.5 KB and up to 60 KB, coalesced with the SSL request or not; SSL requests in the pre-4.1 layout (naming another user in the clear) and connection-phase sequence ids other than 1, 2; ClientHello records with legacy versions 0x0300..0x0303 and a handshake response inside TLS that does not repeat CLIENT_SSL; the client's stream ending (without close_notify) at every such position of a TLS 1.3 and a TLS 1.2 session - with all messages in one burst of records and with one record per message; Ok is only acceptable exactly between two TLS records; each transport write of a TLS session failing once with Interrupted / WouldBlock, with an accepting and a rejecting shim; plus a TLS-requesting client against a shim without TLS configuration under every cut of its first flight. Plus every history of 3-4 (thorough: 5) commands of every kind (PREPARE, long data, EXECUTE, CLOSE, queries, PING) inside a TLS session under whole, 7- and 61-byte reads. Oracle: user name and certificate chain at after_authentication, callback log = script, every server byte after the greeting lies in a well-formed TLS record the client accepts, decrypted replies decode strictly with the right sequence ids, run_on returns Ok; no-config case: Err and no callback.".into(),
         assumptions: vec![
             "ring's randomness is not owned: handshake bytes differ between runs and with a client certificate the stream length varies by a byte or two; cut positions are taken from the stream actually produced, the verdict does not depend on the random values".into(),
             "flush behaviour is C12's subject; here written bytes are visible to the client at once".into(),
@@ -974,6 +1049,6 @@ pub fn build(quick: bool) -> Check {
         exhaustive: true,
         caps_hit: vec![],
         families,
-        required: vec!["tls_client_quirks", "tls_eof_inside_a_record", "tls_write_faults", "ssl_request_variants", "client_hello_beyond_4096_bytes", "client_hello_in_two_records", "tls12_handshakes", "splits_inside_client_hello", "splits_inside_ssl_request", "ssl_request_coalesced_with_client_hello", "client_chains_delivered", "refusals", "tls_records_from_server"],
+        required: vec!["tls_walks", "tls_client_quirks", "tls_eof_inside_a_record", "tls_write_faults", "ssl_request_variants", "client_hello_beyond_4096_bytes", "client_hello_in_two_records", "tls12_handshakes", "splits_inside_client_hello", "splits_inside_ssl_request", "ssl_request_coalesced_with_client_hello", "client_chains_delivered", "refusals", "tls_records_from_server"],
     }
 }
